@@ -87,13 +87,18 @@ fn check_masks(r: &mut Report, s: &str, masks: &[u64], steps: usize) {
 
 fn conversions(cfg: &Cfg) -> Report {
     // complete enumeration, split into 16 blocks for the thread pool
-    let hi: u32 = if cfg.miri() { 0x3000 } else { 0x12_0000 };
+    let hi: u32 = if cfg.miri() { 0x120 } else { 0x12_0000 };
     let blocks = 64usize;
     let per = (hi as usize + blocks - 1) / blocks;
     let mut rep = par_for(cfg, blocks, |b, r| {
         let lo = (b * per) as u32;
         let end = (((b + 1) * per) as u32).min(hi);
-        for n in lo..end {
+        let extra: Vec<u32> = if cfg.miri() && b == 0 {
+            vec![0x7FF, 0x800, 0xFFF, 0x1000, 0xD7FF, 0xD800, 0xDFFF, 0xE000, 0xFFFF, 0x10000, 0x3FFFF, 0x40000, 0x10FFFF, 0x110000, 0x11FFFF]
+        } else {
+            vec![]
+        };
+        for n in (lo..end).chain(extra) {
             let g = kchr::from_u32(n);
             let w = char::from_u32(n);
             r.ev(if w.is_some() { "from_u32:Some" } else { "from_u32:None" });
@@ -156,7 +161,7 @@ fn conversions(cfg: &Cfg) -> Report {
 
 pub fn run(cfg: &Cfg) -> (&'static str, Report, String, String) {
     let mut rep = conversions(cfg);
-    let maxc = cfg.by(3, 5, 6);
+    let maxc = cfg.by(2, 5, 6);
     let strings = strings_upto(&crate::c03::SIGMA4, maxc);
     rep.merge(par_for(cfg, strings.len(), |i, r| {
         let s = &strings[i];
@@ -167,7 +172,7 @@ pub fn run(cfg: &Cfg) -> (&'static str, Report, String, String) {
             r.sample(|| format!("s={:?}: all {} front/back masks of {} steps, chars/char_indices/rev/rev.rev, as_str after every step", s, masks.len(), steps));
         }
     }));
-    let nrand = cfg.by(4, 300, 2000);
+    let nrand = cfg.by(2, 300, 2000);
     rep.merge(par_for(cfg, nrand, |i, r| {
         let mut rng = Rng::new(cfg.seed.wrapping_mul(31_337).wrapping_add(i as u64));
         let s = random_string(&mut rng, &crate::c03::WIDE, cfg.by(8, 30, 40));
